@@ -299,7 +299,7 @@ def serialise(rep, rel):
     rep.ob("O8.2", "R4", fi, ok, ekey if ekey is not None else edges, "edges are sorted by the edge key")
     dk = rep.f(rel, "_default_edge_key")
     rets = returns_of(dk.node)
-    ok = bool(rets) and isinstance(rets[-1].value, ast.Tuple) and norm(rets[-1].value.elts[0]).replace(" ", "") == \
+    ok = bool(rets) and isinstance(rets[-1].value, ast.Tuple) and norm(origin(local_defs(dk.node), rets[-1].value.elts[0])).replace(" ", "") == \
         f"tuple(sorted(({dk.params[0]},{dk.params[1]})))"
     rep.ob("O8.2", "R4", dk, ok, rets[-1] if rets else "return", "the default edge key orders on the end points in normalised (sorted) order")
     init = rep.f(rel, GC + "__init__")
@@ -412,24 +412,24 @@ def nauty(rep):
     ch = sep = None
     bdefs = local_defs(bl.node)
     full_ret = returns_of(bl.node)
-    fm = pmatch("$$ns + $$sep + $$es", full_ret[-1].value) if full_ret else None
-    if fm:
-        sep_node = full_ret[-1].value.left.right
+    from ..facts import concat_parts
+    fm = concat_parts(full_ret[-1].value) if full_ret else None     # `ns + sep + es`, or the f-string spelling of it
+    if fm and len(fm) == 3:
+        sep_node = fm[1]
         if isinstance(sep_node, ast.Constant) and isinstance(sep_node.value, str) and sep_node.value:
             sep = sep_node.value[0]
-        nseg = origin(bdefs, full_ret[-1].value.left.left)
+        nseg = origin(bdefs, fm[0])
     else:
         nseg = None
     if rets:
-        rm = pmatch("$$ns + $$suf", rets[-1].value)
-        if rm and nseg is not None:
+        rm = concat_parts(rets[-1].value)
+        if rm and len(rm) == 2 and nseg is not None:
             shape = True
-            rv_ = rets[-1].value
-            pseg = origin(pdefs, rv_.left)
+            pseg = origin(pdefs, rm[0])
             # same construction as the full label's node segment, over the prefix instead of the whole permutation
             pat = f"'|'.join((':'.join((str(self._freeze({pb.params[1]}.nodes[$v].get($a, ''))) for $a in self.node_attrs)) for $v in {pre}))"
             same = pmatch(pat, pseg) is not None
-            suf = origin(pdefs, rv_.right)
+            suf = origin(pdefs, rm[1])
             if isinstance(suf, ast.BinOp) and isinstance(suf.op, ast.Mult) and isinstance(suf.left, ast.Constant) and isinstance(suf.left.value, str) and len(suf.left.value) == 1:
                 ch = suf.left.value
     # a non-final node segment is followed by '|' (inside the join) — the prefix' segment is followed by '|' or by the first char of sep
